@@ -327,7 +327,15 @@ class ElabPass:
 
 def _close_bundle_definition(bundle_def) -> None:
     """Close `bundle_def`, and the definitions of its sub-bundles, to further additions."""
-    if bundle_def is None or getattr(bundle_def, "_elaborated", True):
+    if bundle_def is None:
+        return
+    # Members are referred to by the names the definition holds them under; the objects carry a name of their own,
+    # which a designer can edit. The two must (still) agree. (Bundle flattening checks the same, for the bundles it sees.)
+    for key, attr in getattr(bundle_def, "namespace", {}).items():
+        if attr.name != key:
+            msg = f"Member `{key}` of {bundle_def} has been re-named `{attr.name}` since it was added"
+            raise RuntimeError(msg)
+    if getattr(bundle_def, "_elaborated", True):
         return
     bundle_def._elaborated = True
     for sub in bundle_def.bundles.values():
